@@ -140,9 +140,16 @@ func (m *vFS) dirByPath(p string) *vDir {
 var vScanGen int
 var vTagGen bool
 
+// vLateDev names a device that the Spec files contain only from the second directory listing on (the directory content
+// "switches" from a state without it to a state with it between the first and the second scan)
+var vLateDev string
+
 func vRawSpec(f *vFile) *cdi.Spec {
 	raw := &cdi.Spec{Version: "0.6.0", Kind: f.vendor + "/c"}
 	for _, n := range f.devs {
+		if vTagGen && n == vLateDev && vScanGen < 2 {
+			continue
+		}
 		env := []string{"DEV=" + n}
 		if vTagGen {
 			env = []string{"GEN" + n + "=" + string(rune('0'+vScanGen))}
